@@ -4,6 +4,8 @@ import json, os, sys
 here = os.path.dirname(os.path.dirname(os.path.abspath(__file__)))
 props = [json.loads(l) for l in open(os.path.join(here, "properties.jsonl"))]
 
+ADDED = {'C01': 'L6 hostile type bodies, L7 scale shapes at every size to 64 and around the powers of two to 512, L8 path arguments (through Find and as statement arguments); texts with deviations, includes or uses also under the three parse options.', 'C02': 'nesting to 1025 levels, quote column x continuation indentation, counts and long arguments, multi-byte characters before an opening quote.', 'C03': 'every text built twice in one process; two runs of one keyword around another statement (long second run); after the mirror check the extension lookup on every node and a processing run, then the mirror check again.', 'C04': 'scale sets up to 82 000 statements; each file loaded alone with the rest fetched from a search path during Process; sets with deviations or uses also under the parse options.', 'C05': 'scenarios for more than 100 errors, identity fans, typedef cycles, names equal under case folding; in the first load order also what yangentry.Parse returns and the run under the parse options; the goyang command in two formats.', 'C06': 'size sweeps (wide copies, many groupings, grouping chains, many uses); three prefix schemes; keyword-like and case-variant names; the StoreUses option; lookups in the statement tree followed by a second processing run.', 'C07': 'deep and wide targets, many augments, two revisions with many imports; three prefix schemes; the trees dropped (ClearEntryCache) and the augments applied again by hand.', 'C08': 'related targets, triples, augmented targets, deep targets, many deviations, deviations through each of many import prefixes, keyword-named targets, the ignore-not-supported option.', 'C09': 'union members (every ordered pair and triple of 26), same-named typedefs, chains to 257, names to 300 bytes, many patterns; three prefix schemes; a look at the tree before the processing run.', 'C10': 'restrictions of up to 40 (80) parts; every resolved set also through Validate, Equal, String read back, Contains, and Equal across precisions.', 'C11': 'chains, fans, cycles, include trees, many modules, equal names under map-order deviations; submodule prefix regimes; incremental processing; the by-name accessors IsDefined / GetValue.', 'C12': 'wide copies, modules loaded after the first lookups; three prefix schemes; the read-only marks of Entry.Print; the kind predicates; accessors asked twice.', 'C13': 'long search paths, directories with many entries, include trees, many revisions; module names with dots, dashes, underscores, upper case; the search path as PathsWithModules builds it; symbolic links; trees rebuilt after ClearEntryCache.', 'C14': 'lists to 300 members, value sweeps to 2^32, 150 distinct types in one schema; every ordered pair of 38 awkward member names; all views after every member while a table is filled; exported tables; caller-side mutation of returned views.', 'C15': 'magnitudes spread over every binary band 2^20..2^63 and the scaling limits 2^64/10^k, 2^63/10^k with neighbours.', 'C16': 'runs of hundreds of characters with multi-byte characters before further statements; concatenated fault kinds; the goyang command fed on standard input behind 10 leading layouts.', 'C17': 'the corpus under three prefix schemes, crossing prefixes, names equal under folding, scale sets; the same lookups from and against the trees yangentry.Parse returns.', 'C18': 'a getmodule operation; trees compared after failed runs; imports, includes and the owner module completed late at sizes to 48; types carrying extensions of a module loaded later; lookups by namespace and import must return the registered objects.', 'C19': 'cold rounds on fresh processes (first use of the library under contention); long posix-patterns; arguments outside ASCII; readers of the statement tree; stress rounds in which two goroutines run the same operation.', 'C20': 'nested writers, many writers alive at once, every write length to 700, large writes around 4096 / 8192 at every stop point, texts that are not ASCII (boundaries inside characters), ownership of one-shot results.'}
+
 # id -> (technique, level text, level note, design ref)
 claimed = {
  "C20": ("exhaustive fault enumeration on the real writer vs. a reference indenter",
@@ -95,6 +97,7 @@ for p in props:
     i = p["id"]
     if i in claimed:
         tech, text, note, ref = claimed[i]
+        text += " Added by the seed rounds (DESIGN.md §14): " + ADDED[i]
         checks.append({
             "property_id": i,
             "quick_cmd": f"./run {i} quick",
